@@ -177,6 +177,12 @@ struct Harness {
 	Harness() : saved(g.in_sut) { g.in_sut = 0; }
 	~Harness() { g.in_sut = saved; }
 };
+// a harness callback calling back into the library: same SUT call, same allocation counter and pending fault
+struct Reenter {
+	int saved;
+	Reenter() : saved(g.in_sut) { g.in_sut = 1; }
+	~Reenter() { g.in_sut = saved; }
+};
 #define SUT_GUARD_ABORT(stmt) do { \
 	if (setjmp(sim::g.jb) == 0) { sim::g.jb_armed = 1; stmt; sim::g.jb_armed = 0; } \
 	else { sim::g.jb_armed = 0; sim::g.in_sut = 0; sim::fail("abort", "library abort: %s", sim::g.abort_msg ? sim::g.abort_msg : "?"); } \
